@@ -134,8 +134,15 @@ def run(tier):
     zi = importlib.import_module("zonedbpy.zone_infos")
     n_py = 0
     common_py = 0
+    seen_records = {}
     for name in zi.ZONE_INFO_MAP:
         n_py += 1
+        # the map key must denote its own record: a record is reached under its own full name and under no other
+        rec = zi.ZONE_INFO_MAP[name]
+        if rec.get("name") != name or id(rec) in seen_records:
+            v.violation("c11:python-db-key-denotes-another-zone", "a name of the Python database denotes the record of another zone",
+                        {"key": name, "record_name": rec.get("name"), "also_reached_as": seen_records.get(id(rec))})
+        seen_records[id(rec)] = name
         h = transformer.hash_name(name)
         if name in ids["zonedbx"]:
             common_py += 1
